@@ -199,6 +199,8 @@ class Interp:
         self.unanswered = []  # UID FETCH requests for a known message that returned nothing for it
         self.selfcopied = set()  # UIDVALIDITYs of mailboxes that were the destination of their own COPY/MOVE
         self.tag_taint = False
+        self.delivered_seen = {}  # tok -> bool | None
+        self.seen_oracle = bool(self.prog.get("seen_oracle"))
         self.probe_p = float(self.prog.get("probe_p", 1.0))
         self.probe_rng = random.Random(int(self.prog.get("seed", 0)) ^ 0x0B5E)
         self.uidexp_only = bool(self.prog.get("uidexpunge_only"))  # family in which UID EXPUNGE <set> is the only way messages go away
@@ -1416,7 +1418,7 @@ class Interp:
         """End of a concurrent run: where did every tagged STORE land; are the messages a
         UID FETCH did not answer for still there?"""
         want_disk = bool(self.props & {"C13", "C04"})
-        if not (self.tags or self.unanswered or self.uidexp_only or want_disk) or self.obs is None or self.obs.lost:
+        if not (self.tags or self.unanswered or self.uidexp_only or want_disk or self.seen_oracle) or self.obs is None or self.obs.lost:
             return
         r = await self.obs.command('LIST "" "*"')
         if not r.ok:
@@ -1429,6 +1431,32 @@ class Interp:
             c = code_of(e, "UIDVALIDITY")
             uvv = (("inbox" if name.lower() == "inbox" else name), int(c[0])) if c else None
             f = await self.obs.command("UID FETCH 1:* (UID FLAGS)")
+            if self.seen_oracle and f.ok:
+                # C13: nothing in this program touches \\Seen (no non-peek body fetch, no STORE of \\Seen): what an MH
+                # agent delivered is still exactly as seen / unseen as the agent made it, whatever the interleaving
+                g = await self.obs.command("UID FETCH 1:* (UID FLAGS BODY.PEEK[HEADER.FIELDS (X-Tok)])")
+                if g.ok:
+                    for u in g.untagged:
+                        if u.kind != "FETCH":
+                            continue
+                        try:
+                            it = fetch_items(u)
+                        except Exception:
+                            continue
+                        body = None
+                        for k_, v_ in it.items():
+                            if k_.startswith("BODY[") and isinstance(v_, (Lit, QStr)):
+                                body = bytes(v_) if isinstance(v_, Lit) else v_.encode("latin-1")
+                        tok_ = corpus.tok_of(body) if body else None
+                        if tok_ is None or tok_ not in self.delivered_seen:
+                            continue
+                        want = self.delivered_seen.get(tok_)
+                        self.C("c13_delivered_seen_state")
+                        fl_ = {canon_flag(x) for x in it.get("FLAGS", [])}
+                        extra_ = fl_ - {"\\seen", "\\recent", "unseen"} if self.prog.get("seen_oracle") == "strict" else set()
+                        if (want is not None and ("\\seen" in fl_) != want) or extra_:
+                            self.V("C13", "delivered_flags_changed", mailbox=name, uid=int(it["UID"]) if "UID" in it else None, tok=tok_,
+                                   delivered={True: "seen", False: "unseen", None: "either"}[want], now=sorted(fl_), inherited=sorted(extra_))
             await self.obs.command("UNSELECT")
             if not f.ok or uvv is None:
                 continue
@@ -1971,6 +1999,9 @@ class Interp:
             if unseen and op.get("split"):
                 box.msgs[-1].amb = box.msgs[-1].mh_amb = True
         self.env.fired("delivery")
+        for tok in toks:
+            # what a plain (one-step, mtime-advancing) delivery gave the message; None = ambiguous by construction
+            self.delivered_seen[tok] = (not unseen) if (op.get("advance", True) and not (unseen and op.get("split"))) else None
         if unseen:
             if op.get("split"):
                 await asyncio.sleep(op.get("split_delay", 0.05))
